@@ -72,6 +72,8 @@ M = [
     ("alaska-replay-ignores-transfer-option", "votekit/elections/election_types/ranking/alaska.py",
      "                self.get_profile(1),  # plurality profile\n                self.m_2,\n                self.transfer,",
      "                self.get_profile(1),  # plurality profile\n                self.m_2,\n                fractional_transfer,", ["C09"]),
+    ("stv-tied-position-check-first-position-only", "votekit/elections/election_types/ranking/stv.py",
+     "            elif any(len(s) > 1 for s in ballot.ranking):", "            elif len(ballot.ranking[0]) > 1:", ["C20"]),
     ("load-csv-dropna", "votekit/cvr_loaders.py", "df.groupby(ranks, dropna=False)", "df.groupby(ranks, dropna=True)", ["C18"]),
     ("lp-root-omitted", "votekit/metrics/distances.py", "lp_dist = sum ** (1 / p_value)", "lp_dist = sum", ["C19"]),
     ("stv-m-bound-off-by-one", "votekit/elections/election_types/ranking/stv.py",
